@@ -38,7 +38,9 @@ PROP = {
                    "assignment leaves both containers and the handle as they were (C04_hash_copy_assign_strong); after a failed insertion the books stay consistent with the "
                    "table and the same insertion retried without fault succeeds with the fault-free model's table (C04_hash_usable_after); the tables are those of C11's add / "
                    "reserve under the faults the record stands for (C04_hash_tables_are_model); the only manager blocks a failing operation may keep are pool buffers of the "
-                   "chained kinds, booked as St.bufs and given back by Clear / destruction (C04_hash_pool_traffic). Tied to the code by c03_htledger (see C03)."),
+                   "chained kinds, booked as St.bufs and given back by Clear / destruction (C04_hash_pool_traffic); at the level of the system the harness drives (two "
+                   "containers and a node handle, every reachable state: C04_hash_reachable_ok) a failing ins / rem / ext / reins / reserve / copyTo leaves both containers and "
+                   "the handle exactly as they were (C04_hash_step_strong). Tied to the code by c03_htledger (see C03)."),
     "level_note": ("Trusted: Lean kernel + standard axioms, harness (g++, ASan/UBSan, -fno-access-control). The sweep covers every k for each reached "
                    "operation instance, but the instances (container kind, size, element category) are a finite chosen set. Documented exceptions "
                    "(HashMap.h items 4, 5: Key&& argument may change; Remove/Extract with key and value both not nothrow-anyway-assignable) are "
@@ -71,6 +73,8 @@ PROP = {
         "Momo.HTL.C04_hash_usable_after",
         "Momo.HTL.C04_hash_tables_are_model",
         "Momo.HTL.C04_hash_pool_traffic",
+        "Momo.HTL.C04_hash_step_strong",
+        "Momo.HTL.C04_hash_reachable_ok",
     ],
     "harnesses": [
         {"name": "c04_strong", "src": "c04_strong.cpp", "sanitize": "asan", "timeout_quick": 600},
@@ -85,7 +89,14 @@ PROP = {
         {"name": "c04_segfault_3", "src": "c04_segfault.cpp", "sanitize": "asan", "flags": ["-DSF_PART=3"], "timeout_quick": 600},
     ] + [
         {"name": "c04_treefault_%d" % k, "src": "c04_treefault.cpp", "sanitize": "asan", "flags": ["-DTF_PART=%d" % k], "timeout_quick": 600}
-        for k in range(1, 6)
+        for k in range(1, 7)
+    ] + [
+        # element / parameter categories that c04_strong lacks: copy-only elements with noexcept swap, throwing MemPoolParams / traits copies (AllocateCreate)
+        {"name": "c04_strong_cat", "src": "c04_strong.cpp", "sanitize": "asan", "flags": ["-DC04S_PART=2", "-O0"], "timeout_quick": 600},
+    ] + [
+        # HashMap / TreeMap for every combination of key and value relocation categories (part = key category)
+        {"name": "c04_mapcat_%d" % k, "src": "c10_mapcat.cpp", "sanitize": "asan", "flags": ["-DMC_PART=%d" % k, "-O0"], "timeout_quick": 600, "timeout_thorough": 3000}
+        for k in range(1, 5)
     ] + [
         {"name": "c03_htledger_open", "src": "c03_htledger.cpp", "sanitize": "asan", "flags": ["-DVF_PART=0"], "timeout_quick": 600},
         {"name": "c03_htledger_open2", "src": "c03_htledger.cpp", "sanitize": "asan", "flags": ["-DVF_PART=1"], "timeout_quick": 600},
@@ -120,6 +131,22 @@ PROP = {
              "handle: insert, hinted add, remove by iterator / key, extract, re-insert, hinted re-insert, range insert, remove-if, merge (incl. ordered ranges for "
              "pvMergeFast and empty destinations), copy assignment, clear. Each operation runs without fault (2/5), with one random (kind, k), or - strong "
              "operations - swept k = 0,1,2,... until it succeeds. distinct_nontrivial there = distinct (configuration, operation, fault kind, k) that raised. "
+             "(d') c04_treefault part 6: the same histories on TreeSet / TreeMap whose items (set item, mapped value, map key) are copy-only with a noexcept ADL swap: "
+             "not nothrow relocatable but nothrow swappable, so the nodes are contiguous and shift by ObjectManager::pvShiftNothrow(swap variant), replacement goes through "
+             "pvAssignAnyway(swap variant) and a failed extraction must shift the items back (Node::pvRemove catch); for the model this is the category reloc=0 assign=1. "
+             "(f) c04_strong_cat (c04_strong.cpp part 2): the sweeps of (b) for ElemSW (copy-only + noexcept swap) on arrays, HashSet/HashMap (LimP4, Open8), HashMultiMap, "
+             "TreeSet/TreeMap (capacity 2, 4; deep cascades capacity 3), RelocateCreate at model level; HashMultiMap::Remove(iterator) of every value position (AssignAnywayValue); "
+             "MemManagerProxy::AllocateCreate: the first insertion / Reserve / operator[] / copy / copy assignment / MergeTo into a never-used tree that creates the tree's NodeParams "
+             "resp. the hash table's BucketParams (LimP1, LimP) with a MemPoolParams class whose k-th construction throws, and container construction / copy / copy assignment "
+             "with a traits class whose k-th copy throws (SetCrew::Data): nothing outstanding at the memory manager, contents unchanged, retry succeeds. "
+             "(g) c04_mapcat (c10_mapcat.cpp, 4 executables = key category): HashMap (LimP4 crowded / spread, Open8 crowded) and TreeMap (capacity 2 contiguous-if-shiftable, capacity 3 indexed) for all 16 "
+             "combinations of key and value category {nothrow-move, copy-only nothrow-assign, copy-only noexcept-swap, copy-only throwing-assign}; every pair of maps of sizes 1,2,5,9,14 + one size "
+             "from the seed (ascending and seed-shuffled insertion order) is the target of Remove(iter, ExtractedPair&) / Extract / Remove(iter) / Remove(key) with the k-th copy construction, k-th "
+             "assignment, k-th allocation, k-th functor call failing for all k: after an exception the map equals the reference std::map pair by pair (own value under own key; documented exception 5 "
+             "tolerated only for throwing-assign key AND value under an assignment fault), handle empty, element objects as before, retry succeeds; after success the handle holds exactly the key and "
+             "value of the removed pair. Node-handle move / ExtractedPair::Remove / re-insertion (absent key, present key, by position) and MergeTo / MergeFrom (same type, TreeMap<->HashMap) under the same "
+             "sweeps (C10), HashMap API spellings no other harness uses (initializer-list constructor, Add(pos, Key&&/const Key&, Value&&/const Value&), AddVar(pos, Key&&, ...), Remove(Position), "
+             "heterogeneous ContainsKey / Find, Position==Iterator, GetBucketBounds const / non-const) with the same reference. distinct_nontrivial there = distinct (map type, size, order, operation, target, fault kind, k) that raised. "
              "(e) c03_htledger (model level, engine htledger; described under C03): every insertion / re-insertion / removal / extraction / Reserve / copy assignment "
              "that exits with an exception is also checked by the property's own oracle - count, outstanding blocks (kinds without pools), live element objects and "
              "the handle as before."),
